@@ -5,8 +5,8 @@ package mux
 import (
 	"strings"
 
-	zzv "github.com/issue9/mux/v9/internal/zzverif"
 	"github.com/issue9/mux/v9/internal/syntax"
+	zzv "github.com/issue9/mux/v9/internal/zzverif"
 	"github.com/issue9/mux/v9/types"
 )
 
